@@ -88,7 +88,9 @@ def arch32_lines(prop, tier, seed):
     units (Cut to Cut) are self-contained, the quick tier validates every third of them"""
     d = vlib.scratch("verif-tr-")
     out = os.path.join(d, "trace32.ndjson")
-    vlib.run_harness(harness32(), ["gen", "-prop", prop, "-tier", tier, "-seed", str(seed + 32), "-out", out])
+    # (this pass also runs on a CPU count that is no power of two)
+    vlib.run_harness(harness32(), ["gen", "-prop", prop, "-tier", tier, "-seed", str(seed + 32), "-out", out],
+                     env_extra={"GOMAXPROCS": str([3, 5, 6, 7][seed % 4])})
     lines = vlib.read_trace(out)
     if tier != "quick":
         return lines
@@ -112,7 +114,7 @@ def arch32_lines(prop, tier, seed):
 def cold_lines(binary, lang, seed, rnd):
     return run_scenario(binary, ["cold", "-lang", str(lang), "-seed", str(seed), "-n", str(rnd)],
                         {"cold": True, "cold_lang": lang, "cold_seed": seed, "cold_round": rnd}, timeout=300,
-                        env_extra={"GOMAXPROCS": str([16, 4, 8][rnd % 3])})[0]
+                        env_extra={"GOMAXPROCS": str([16, 3, 8, 5, 4, 7, 6, 2, 12][rnd % 9])})[0]
 
 
 def cold_start(binary, tier, seed):
@@ -203,8 +205,15 @@ def gen_recorder(prop, arch32=True, cold=False, concuni=False, batch=False, conc
             lines += batch_lines(binary, tier, seed)
         if concheck:
             lines += concheck_lines(binary, tier, seed)
-        if prop == "C08":
+        if prop in ("C08", "C01"):
             lines += golden_tool_lines(binary)      # `make update-wordlist` on the canonical upstream reproduces the lists
+        if prop == "C08":
+            # the whole index cover once more in a process whose CPU count is not a power of two (tables built in
+            # parallel pieces must still be whole)
+            for procs in ([[5, 7, 3, 6][seed % 4]] if tier == "quick" else [3, 5, 6, 7]):
+                out3 = os.path.join(d, "trace-p%d.ndjson" % procs)
+                vlib.run_harness(binary, ["gen", "-prop", prop, "-tier", "quick", "-seed", str(seed + procs), "-out", out3], env_extra={"GOMAXPROCS": str(procs)})
+                lines += vlib.read_trace(out3)
         return lines, sum(1 for x in lines if '"op":"Reset"' in x), {}
     return rec
 
@@ -273,10 +282,11 @@ def cold_replay(prop):
         if not cut.get("cold"):
             return plain_replay(prop, path, binary)
         tried = 0
-        for batch in range(20):
+        for batch in range(100):
             lines = []
-            for k in range(20):
-                lines += cold_lines(binary, cut["cold_lang"], cut["cold_seed"], 1000 + batch * 20 + k)
+            for k in range(4):
+                # the same kind of process (plain / storm / mixed languages) as the recorded one
+                lines += cold_lines(binary, cut["cold_lang"], cut["cold_seed"], 999 + 3 * (batch * 4 + k) + cut.get("cold_round", 0) % 3)
                 tried += 1
             v = vlib.validate(lines, [prop], shards=4)
             if v.infra:
@@ -750,6 +760,13 @@ def record_c06(binary, tier, seed):
             if i % 60 == 59:
                 steps.append({"op": "cut"})
         steps.append({"op": "cut"})
+    # a source that also offers ReadAt / Seek / Len (a *bytes.Reader, an *os.File): consecutive calls on the same
+    # reader each take the NEXT bytes of the stream, through Read
+    steps.append({"op": "swap", "kind": "seekable"})
+    for w in (12, 24, 15, 12, 21, 18, 24):
+        steps.append({"op": "new", "n": w, "lang": (seed + w) % 10, "script": [], "after": "data", "fill": 4})
+        nrun += 1
+    steps.append({"op": "cut"})
     steps.append({"op": "swap", "kind": "script"})
     # the model's "custom" failure stands for any error that is not EOF: concretised with the kinds of error real
     # sources return (temporary ones included), once followed by more data and once by the same failure for ever
@@ -835,12 +852,28 @@ def parse_strace(path):
     return regions
 
 
-def osproc_trace(binary, n, l, seed, d, slow_ms=0):
+CONVENTIONAL_ENV = {"SOURCE_DATE_EPOCH": "1700000000", "FAKETIME": "2020-01-01 00:00:00", "TZ": "UTC", "LANG": "C", "LC_ALL": "tr_TR.UTF-8", "CI": "true", "DEBUG": "1",
+                    "TEST": "1", "SEED": "1", "RANDOM_SEED": "1", "DETERMINISTIC": "1", "REPRODUCIBLE": "1", "GOGC": "50", "GOMAXPROCS": "3", "BIP39_DEBUG": "1",
+                    "BIP39_SEED": "1", "ENTROPY": "00000000000000000000000000000000", "NO_RANDOM": "1", "INSECURE": "1"}
+
+
+def osproc_env(env_mode, slow_ms):
+    """the environment of a fresh process: as inherited; with the variables build systems, test runners and
+    'reproducible' modes conventionally set; or stripped to almost nothing"""
+    base = dict(os.environ, VERIF_DATA=os.path.join(vlib.SPEC, "data"), VERIF_SLOW_MS=str(slow_ms))
+    if env_mode == "conventional":
+        base.update(CONVENTIONAL_ENV)
+    elif env_mode == "bare":
+        base = {k: v for k, v in base.items() if k in ("PATH", "VERIF_DATA", "VERIF_SLOW_MS")}
+    return base
+
+
+def osproc_trace(binary, n, l, seed, d, slow_ms=0, env_mode=""):
     """one fresh process on the default source under strace -> (event lines, number of calls explained by getrandom)"""
     tr, st = os.path.join(d, "t.ndjson"), os.path.join(d, "st.txt")
     r = subprocess.run(["timeout", "120", "strace", "-f", "-e", "trace=getrandom,write", "-xx", "-s", "256", "-o", st,
                         binary, "osproc", "-n", str(n), "-lang", str(l), "-seed", str(seed), "-out", tr],
-                       capture_output=True, text=True, env=dict(os.environ, VERIF_DATA=os.path.join(vlib.SPEC, "data"), VERIF_SLOW_MS=str(slow_ms)))
+                       capture_output=True, text=True, env=osproc_env(env_mode, slow_ms))
     if r.returncode != 0:
         raise Infra("osproc under strace failed: " + r.stderr[-1000:])
     regions = parse_strace(st)
@@ -882,7 +915,11 @@ def record_c07(binary, tier, seed):
             slow = 0
             if (n, l) in (combos[(seed * 7) % len(combos)], combos[(seed * 7 + 23) % len(combos)]):
                 slow = 1200 if tier == "quick" else [300, 1200, 3000, 6000][rep % 4]
-            ls, ob = osproc_trace(binary, n, l, seed * 1000 + rep, d, slow_ms=slow)
+            # the process environment varies: two processes per run see the conventional build/test/reproducibility
+            # variables, two an almost empty environment - the default source is the OS generator all the same
+            k = combos.index((n, l))
+            mode = "conventional" if k % 25 == (seed * 3) % 25 else "bare" if k % 25 == (seed * 3 + 11) % 25 else ""
+            ls, ob = osproc_trace(binary, n, l, seed * 1000 + rep, d, slow_ms=slow, env_mode=mode)
             lines += ls
             observed += ob
             nproc += 1
@@ -916,6 +953,9 @@ def replay_c07(path, binary):
         raise Infra("C07 replay file has no NewMnemonic call")
     d = vlib.scratch("verif-os-")
     lines, ob = osproc_trace(binary, call["n"]["v"], call["lang"], 4242, d, slow_ms=1200)
+    for mode in ("conventional", "bare"):
+        l2, _ = osproc_trace(binary, call["n"]["v"], call["lang"], 4243, d, env_mode=mode)
+        lines += l2
     v = vlib.validate(lines, ["C07"], shards=1)
     mine = [b for b in v.bad if b[1] == "C07"]
     return (len(mine) == 0, "re-ran a fresh process under strace: %d events, %d failing" % (len(lines), len(mine)))
@@ -1213,12 +1253,13 @@ def run_conc(binary, goroutines, replicas, seed, d, procs=None):
     return lines, n + (1 if crash else 0)
 
 
-def race_event(text):
+def race_event(text, hung=False):
     """the race detector's reports as one RaceReport event.  Only reports with a frame of the library count; a report
-    made of harness frames alone is a defect of the harness (no verdict)."""
+    made of harness frames alone is a defect of the harness (no verdict) - unless a call hung in that process: the
+    watchdog then abandons the goroutine, and whatever it writes later races with the harness by construction."""
     reports = [x for x in text.split("==================") if "WARNING: DATA RACE" in x]
     lib = [x for x in reports if "github.com/islishude/bip39" in x]
-    if len(lib) < len(reports):
+    if len(lib) < len(reports) and not hung:
         own = next(x for x in reports if x not in lib)
         raise Infra("data race inside the harness itself:\n" + own[:1500])
     t = "==================".join(lib)
@@ -1264,12 +1305,13 @@ def record_c12(binary, tier, seed):
         scen.append((["concuni", "-tier", "quick", "-seed", str(sd)], {"concuni_seed": sd, "concuni_tier": "quick"}) if k % 4 else
                     (["batch", "-tier", "quick", "-seed", str(sd)], {"batch_seed": sd, "batch_tier": "quick"}))
     scen.append((["concheck", "-tier", tier, "-seed", str(seed)], {"concheck_seed": seed, "concheck_tier": tier}))
-    for k in range(4 if tier == "quick" else 40):
+    # cold starts: mostly of the kind with heavy read traffic around the first uses (round = 1 mod 3)
+    for k in ([1, 4, 7, 10, 13, 16, 19, 22, 0, 2] if tier == "quick" else [1 + 3 * j for j in range(60)] + list(range(30))):
         scen.append((["cold", "-lang", str((seed + 3 * k) % 10), "-seed", str(seed), "-n", str(k)], {"cold": True, "cold_lang": (seed + 3 * k) % 10, "cold_seed": seed, "cold_round": k}))
     for (a, cf) in scen:
         ls, text = run_scenario(binary, a, cf, race=True)
         lines += ls
-        ev, n = race_event(text)
+        ev, n = race_event(text, hung=any('"timeout":true' in x for x in ls))
         lines.append(ev)
         nraces += n
     return lines, len(plan), {"fresh_race_build_processes": len(plan), "race_reports": nraces,
@@ -1399,6 +1441,10 @@ class _Srv(http.server.BaseHTTPRequestHandler):
         b = _Srv.files[name]
         _Srv.served += 1
         self.send_response(200)
+        # what servers say about a .txt file varies: with a charset, without one, nothing at all, a binary type
+        ct = ["text/plain; charset=utf-8", "text/plain", None, "application/octet-stream", "text/plain; charset=UTF-8", "text/plain"][(_Srv.served // 2) % 6]
+        if ct:
+            self.send_header("Content-Type", ct)
         if _Srv.faults.get(name, 0) > 0:
             # a transfer that breaks off: the declared length is never reached, the connection is dropped mid-body
             _Srv.faults[name] -= 1
